@@ -38,6 +38,9 @@ def respell_python(text, k):
             cands.append(sign + body[1:])
     if not sign:
         cands.append('+' + body)
+    if val == 0:
+        # zero with a sign, with and without digits after the point
+        cands += ['-0', '-0.0', '+0', '-.0', '0.0', '-0.', '0e0']
     pick = cands[k % len(cands)]
     try:
         if float(pick) == val:
